@@ -483,8 +483,16 @@ func ParseVps(vps []byte, ctx *Context) error {
 	return parsePtl(&br, ctx, vpsMaxSubLayersMinus1)
 }
 
-func ParseSps(sps []byte, ctx *Context) error {
-	var err error
+func ParseSps(sps []byte, ctx *Context) (err error) {
+	// nazabits.BitReader reads one byte past the end of its buffer when an exp-golomb code ends exactly at the end of
+	// the buffer (zero-width read after the last bit). The sps comes from the peer, a truncated one must be reported
+	// as an error to the caller like any other malformed sps, it must not take the whole process down.
+	defer func() {
+		if r := recover(); r != nil {
+			Log.Errorf("ParseSps failed. recover=%+v, sps len=%d", r, len(sps))
+			err = nazaerrors.Wrap(base.ErrHevc)
+		}
+	}()
 
 	if len(sps) < 2 {
 		return nazaerrors.Wrap(base.ErrHevc)
